@@ -29,6 +29,8 @@ import sys
 
 import numpy as np
 
+EPS32 = float(np.finfo(np.float32).eps)
+
 from vlib.gen import common
 
 PROPERTY = "C08"
@@ -169,14 +171,20 @@ def structure(case, need_protein, need_cell):
     nf = case["n_frames"]
     repo = os.environ.get("VERIF_REPO", "/repo")
     if need_protein or case["source"] == "protein":
-        base = md.load(os.path.join(repo, "tests/data/2EQQ.pdb"))
+        if case.get("md_protein"):
+            # frames of a real simulation (lysozyme, 158 residues): secondary structure that comes and goes from frame to
+            # frame (3-, 4- and 5-turns, bridges), which an NMR ensemble of a 28-residue peptide does not have
+            base = md.load(os.path.join(repo, "tests/data/1am7_corrected.xtc"), top=os.path.join(repo, "tests/data/1am7_protein.pdb"))
+            base.unitcell_vectors = None
+        else:
+            base = md.load(os.path.join(repo, "tests/data/2EQQ.pdb"))
         if case.get("water_first"):
             # a residue without backbone in front of the protein: the first protein residue has no preceding carbonyl
             w = md.load(os.path.join(repo, "tests/data/tip3p_300K_1ATM.pdb")).atom_slice([0, 1, 2])
             w = md.Trajectory(np.repeat(w.xyz[:1] + 3.0, base.n_frames, axis=0), w.topology)
             base = w.stack(base)
         idx = [int(x) for x in rng.integers(0, base.n_frames, nf)]
-        xyz = base.xyz[idx] + rng.normal(scale=0.01, size=(nf, base.n_atoms, 3)).astype(np.float32)
+        xyz = base.xyz[idx] + rng.normal(scale=0.0005 if case.get("md_protein") else 0.01, size=(nf, base.n_atoms, 3)).astype(np.float32)
         t = md.Trajectory(xyz.astype(np.float32), base.topology)
     else:
         na = case["n_atoms"]
@@ -243,6 +251,9 @@ def guarded(t, junk, rng):
 
 
 # ------------------------------------------------------------------------------------------------ cases
+MD_PROTEIN_FNS = ("compute_dssp", "kabsch_sander", "wernet_nilsson", "compute_contacts", "compute_contacts(ca)", "compute_phi", "compute_chi1")
+
+
 def gen_cases(tier, seed):
     i = 0
     reps = 6 if tier == "quick" else 10
@@ -254,7 +265,8 @@ def gen_cases(tier, seed):
                 c = dict(i=i, kind="py", fn=name, seed=common.case_seed(seed, "C08", i), n_frames=nf,
                          source="protein" if (variant == 0 and k % 3 == 0) else "lattice", n_atoms=int(rng.choice([7, 30, 61, 150])),
                          cell=bool(rng.random() < 0.3), cellkind=["ortho", "triclinic", "hex120"][int(rng.integers(3))],
-                         water_first=bool(name in ("kabsch_sander", "compute_dssp") and variant == 1))
+                         water_first=bool(name in ("kabsch_sander", "compute_dssp") and variant == 1),
+                         md_protein=bool(name in MD_PROTEIN_FNS and (r + variant) % 2 == 1))
                 yield c
                 i += 1
                 if variant == 0:
@@ -316,6 +328,8 @@ def run_case(case, ctx):
         ctx.skip("setup", f"{name} raised {type(e).__name__} on the probe structure: {str(e)[:80]}")
         return
     ctx.observe("function", name)
+    if case.get("md_protein"):
+        ctx.observe("structure_source", "simulation frames (1am7)")
     # (ii) team sizes and repetition
     for th in TEAM + [n + 3]:
         for rep in range(2 if th in (5, n + 3) else 1):
@@ -339,7 +353,25 @@ def run_case(case, ctx):
     sample = sorted(set([0, n - 1] + [int(x) for x in rng.integers(0, n, 4)]))
     for i in sample:
         one = call(t[i], 4)[0]
-        if not same(one, base[i], spec["exact"]):
+        ok = same(one, base[i], spec["exact"])
+        if not ok and t.unitcell_angles is not None and isinstance(one, np.ndarray) and one.dtype.kind == "f":
+            # mdtraj chooses between its orthorhombic and its general minimum-image arithmetic once per call, from the cells
+            # of ALL frames; a rectangular frame that sits among skewed ones is therefore computed with the general
+            # formulas inside the trajectory and with the rectangular ones alone.  Both are correct; they round differently
+            # once coordinates are large (float32 spacing at 50 nm is 4e-6 nm).  In exactly that situation the comparison
+            # allows what the rounding of the INPUT coordinates can explain, and nothing more.
+            rect_i = bool(np.all(np.abs(t.unitcell_angles[i] - 90.0) <= 1e-6))
+            rect_all = bool(np.all(np.abs(t.unitcell_angles - 90.0) <= 1e-6))
+            if rect_i != rect_all:
+                cmax = float(np.abs(t.xyz[i]).max())
+                tol = 16 * EPS32 * cmax * (10.0 if any(w in name for w in ("angles", "dihedrals", "phi", "chi")) else 1.0)
+                dd = np.abs(one.astype(np.float64) - base[i].astype(np.float64))
+                if any(w in name for w in ("angles", "dihedrals", "phi", "chi")):
+                    dd = np.minimum(dd, 2 * np.pi - dd)
+                ok = bool(one.shape == base[i].shape and np.all(dd <= tol))
+                if ok:
+                    ctx.observe("context_rounding_only", f"{name}: rectangular frame among skewed ones, differs by input rounding only")
+        if not ok:
             pos = "first" if i == 0 else ("last" if i == n - 1 else "middle")
             ctx.violation("context.single-frame", f"{name}:frame-alone-differs-from-frame-in-trajectory",
                           f"{name}: frame {i} ({pos}) of {n} computed alone differs from its value inside the trajectory", frame=i,
